@@ -65,6 +65,8 @@ pub fn t_any_all(s: &str) -> Vec<String> { vec![s.chars().any(|c| c == ',').to_s
 pub fn t_fold(s: &str) -> Vec<String> { vec![s.bytes().fold(0u32, |acc, b| acc.wrapping_mul(31).wrapping_add(b as u32)).to_string()] }
 pub fn t_string_ops(s: &str) -> Vec<String> { let mut t = String::from(s); t.insert(0, '<'); t.push('>'); let p = t.pop(); t.insert_str(1, "--"); let mut o = vec![t.clone()]; if let Some(c) = p { o.push(c.to_string()) } t.truncate(2); o.push(t); o }
 
+pub fn t_local_closure(s: &str) -> Vec<String> { let digits = |part: &str| -> String { part.chars().filter(|c| c.is_ascii_digit()).collect() }; match s.split_once(',') { Some((a, b)) => vec![digits(a), digits(b)], None => vec![digits(s)] } }
+
 pub type TestFn = fn(&str) -> Vec<String>;
 pub const TESTS: &[(&str, TestFn)] = &[
     ("t_rsplit_once_char", t_rsplit_once_char), ("t_rsplit_once_str", t_rsplit_once_str), ("t_split_once_char", t_split_once_char), ("t_split_once_str", t_split_once_str),
@@ -76,5 +78,5 @@ pub const TESTS: &[(&str, TestFn)] = &[
     ("t_take_while", t_take_while), ("t_positions", t_positions), ("t_sum", t_sum), ("t_max_min", t_max_min), ("t_max_by_key", t_max_by_key), ("t_step_by", t_step_by), ("t_rev", t_rev),
     ("t_slice_starts", t_slice_starts), ("t_split_first", t_split_first), ("t_split_last", t_split_last), ("t_vec_ops", t_vec_ops), ("t_swap_remove", t_swap_remove), ("t_to_digit", t_to_digit),
     ("t_utf16", t_utf16), ("t_retain", t_retain), ("t_join", t_join), ("t_enumerate_filter", t_enumerate_filter), ("t_zip_chain", t_zip_chain), ("t_last_nth", t_last_nth), ("t_any_all", t_any_all),
-    ("t_fold", t_fold), ("t_string_ops", t_string_ops),
+    ("t_fold", t_fold), ("t_local_closure", t_local_closure), ("t_string_ops", t_string_ops),
 ];
